@@ -38,6 +38,11 @@ def long_runs(n, blank=' '):
             '.byte ' + '+'.join(['1'] * n), '.byte ' + ','.join(['1'] * n) + ' x', '.2byte ' + 'L' * (n * 5),
             '.cstr "' + 'a' * (n * 5) + '"', '.cstr "' + 'a' * (n * 5), 'K_run2 = ' + '1' * n + 'x',
             '.byte ' + 'BYTE0(' * min(n, 200) + '1' + ')' * min(n, 200), '.byte 1' + ' ;' * n, 'l' * n + ':' + B + 'l' * n + ':',
+            # long identifiers / numbers in front of text that cannot follow them (e.g. a forgotten comma)
+            '.fill ' + 'L' * n, '.fill ' + '1' * n + ' x', '.fill ' + '1' * n, '.fill 1, ' + 'b01' * (n // 3 + 1) + ' q',
+            '.byte ' + '0a' * (n // 2 + 1) + 'H z', '.fill ' + 'count_of_things_' * (n // 16 + 1) + ' 0', '.org ' + '7' * n + ' "ZQ" x',
+            'K_run3 = ' + 'f' * n + ' ]', '#if ' + 'S' * n + ' =', '#if ' + '9' * n + ' == x y', '.zero ' + 'z' * n + ' 1',
+            'ldi ' + 'v' * n + ' w', 'ldi ' + '5' * n + ' 6', '.2byte 1, ' + 'q' * n + ' r',
             # long conditional chains and deep nesting (work must not multiply per branch / level)
             '\n'.join(['#if 0', '.byte 1'] + ['#elif 0\n.byte 2'] * min(n, 120) + ['#else', '.byte 3', '#endif']),
             '\n'.join(['#if 0', '.byte 1'] + ['#elif 0\n.byte 2'] * min(n, 120) + ['#elif 1', '.byte 3', '#endif']),
@@ -244,7 +249,10 @@ class C14(core.Check):
             'or (exit != 0 and the pre-placed sentinel image neither changed nor opened for writing); planted must-reject faults '
             'must exit != 0. distinct_nontrivial = distinct (corruption, position, format, outcome class) tuples.')
     assumptions = ('termination is judged as bounded progress: B = 200 x source lines + 60000 monitored line-steps; RLIMIT_CPU is '
-                   'the backstop; a wall-clock timeout is inconclusive',)
+                   'the backstop; a wall-clock timeout is inconclusive (the step bound has a quadratic allowance per source line)',
+                   'faults are planted in compiled code only (also inside #mute): a line of a conditional branch that is not compiled '
+                   'contributes nothing (C08), and whether such a line makes the program one "containing" a fault is not fixed by the '
+                   'statement - the pinned tree itself rejects an unknown mnemonic there but accepts trailing garbage after a directive')
     chunk = 1500
     required_buckets = {**{'corruption:' + c: 3 for c in CORRUPTIONS}, **{'fmt:' + str(f): 3 for f in FORMATS},
                         'planted:unresolvable-label': 3, 'planted:unknown-instruction': 3, 'planted:no-variant-accepts': 3,
